@@ -138,16 +138,6 @@ theorem create_then_lookup (s : FS) (c c' : Choice) (dfh name : Bytes) (kind : N
     simp [get_set, hne.symm]
   rw [this, freshInode_gen, hfh, ha]
 
-/-- PENDING (growth items, stated in full): a removed name no longer resolves, and in general a
-    name resolves to the object most recently bound to it.  Both need the reachable-state
-    invariant that live names are unique per directory. -/
-def removed_disappear : Prop :=
-  ∀ (s : FS) (c : Choice) (dfh name : Bytes),
-    (∀ (i j k : Nat) (sj sk : Slot), (s.get i).slots[j]? = some sj → (s.get i).slots[k]? = some sk →
-        sj.inum ≠ 0 → sk.inum ≠ 0 → sj.name = sk.name → j = k) →
-    (step s (.remove dfh name) c).2 = .done →
-    (step (step s (.remove dfh name) c).1 (.lookup dfh name) c).2.isOk = false
-
 /-- Non-vacuity: a concrete write/read and create/lookup on a fresh file system. -/
 example :
     let s0 := mkfs true 100000
@@ -165,7 +155,7 @@ theorem removed_name_is_gone (u : Bool) (sz : Nat) (ops : List (Op × Choice)) (
     (hres : resolve (run (mkfs u sz) ops).1 dfh = some d)
     (h : doRemove (run (mkfs u sz) ops).1 dfh name isdir = (s', .done)) :
     lookupIn (s'.get d) name = none :=
-  removed_disappear _ s' dfh name isdir d (run_NU _ ops (mkfs_NU u sz)) hres h
+  GoNfsd.Model.Fs.removed_disappear _ s' dfh name isdir d (run_NU _ ops (mkfs_NU u sz)) hres h
 
 /-! ### block level (model M7, tied to the code by the `blockmap` correspondence) -/
 
